@@ -2045,10 +2045,22 @@ def c09(tier, sc):
             seen.add(key)
             uniq.append(f)
     fams = uniq
-    n = (128 << 10) if big else (32 << 10)
-    meas = time_families(sc, vh, fams, n, 4, 5 if big else 3)
+    n = 32 << 10
+    meas = time_families(sc, vh, fams, n, 4, 3)
     for m, f in zip(meas, fams):
         m["fam"] = f
+    if big:
+        # second pass at four times the size, five repetitions, for the families that look most expensive or
+        # least linear in the first pass (and a random tenth of the rest)
+        order = sorted(range(len(meas)), key=lambda i: -(meas[i]["ns2"] / max(1, meas[i]["ns"])) if meas[i]["ns"] >= 200000 else 0)
+        sel = set(order[:3000]) | set(sorted(range(len(meas)), key=lambda i: -meas[i]["ns"])[:1500])
+        sel |= set(i for i in range(len(meas)) if r0.random() < 0.1)
+        sel = sorted(sel)
+        meas2 = time_families(sc, vh, [fams[i] for i in sel], 128 << 10, 4, 5)
+        for m, i in zip(meas2, sel):
+            m["fam"] = fams[i]
+        meas += meas2
+        rep.part("timing.second_pass", families=len(sel), n=128 << 10)
     tr = sc.path("c09-trace.ndjson")
     write_ndjson(tr, [{k: v for k, v in m.items() if k != "fam"} for m in meas])
     ev, ntr, rejects, st, gen = validate_traces(sc, d, "MonC09.tla", "MonC09.cfg", tr, shards=1)
